@@ -237,8 +237,25 @@ def rows : List Row := [
   ⟨false, [109, 117, 115, 116, 116, 97, 105, 108, 32, 99, 97, 108, 108, 32, 118, 111, 105, 100, 32], .void, [.callee, .cargs], .none, false⟩,
   ⟨true, [109, 117, 115, 116, 116, 97, 105, 108, 32, 99, 97, 108, 108, 32], .void, [.ty, .lit [32], .callee, .cargs], .loadTy, false⟩,
   ⟨false, [110, 111, 116, 97, 105, 108, 32, 99, 97, 108, 108, 32, 118, 111, 105, 100, 32], .void, [.callee, .cargs], .none, false⟩,
-  ⟨true, [110, 111, 116, 97, 105, 108, 32, 99, 97, 108, 108, 32], .void, [.ty, .lit [32], .callee, .cargs], .loadTy, false⟩
+  ⟨true, [110, 111, 116, 97, 105, 108, 32, 99, 97, 108, 108, 32], .void, [.ty, .lit [32], .callee, .cargs], .loadTy, false⟩,
+  -- 82: switch — the line `switch T V, label %d [`; the cases follow on lines of their own (`Inst.cases`), closed by the line `\t]`
+  ⟨false, [115, 119, 105, 116, 99, 104, 32], .void, [.tyval, .lit sCommaLabel, .lab, .lit [32, 91]], .none, true⟩,
+  -- 83: invoke void; 84: invoke T (a terminator with a value) — the line `invoke T @f(args)`; the line `<tab><tab>to label %n unwind label %u` follows
+  ⟨false, [105, 110, 118, 111, 107, 101, 32, 118, 111, 105, 100, 32], .void, [.callee, .cargs], .none, true⟩,
+  ⟨true, [105, 110, 118, 111, 107, 101, 32], .void, [.ty, .lit [32], .callee, .cargs], .loadTy, true⟩,
+  -- 85: landingpad — the line `landingpad T`; `cleanup` and the clauses follow on lines of their own
+  ⟨true, [108, 97, 110, 100, 105, 110, 103, 112, 97, 100, 32], .void, [.ty], .loadTy, false⟩,
+  -- 86: resume; 87: va_arg
+  ⟨false, [114, 101, 115, 117, 109, 101, 32], .void, [.tyval], .none, true⟩,
+  ⟨true, [118, 97, 95, 97, 114, 103, 32], .void, [.tyval, .lit sComma, .ty], .lastTy, false⟩
 ]
+
+/-- the row of `switch` -/
+def swRow : Nat := 82
+/-- the rows of `invoke` -/
+def invRows : List Nat := [83, 84]
+/-- the row of `landingpad` -/
+def lpRow : Nat := 85
 
 def phisString (useHex : Int → Bool) (cur : Ty) : List (Operand × Ident) → Bytes
   | [] => []
@@ -479,10 +496,20 @@ def readSlots : Ty → List Slot → Bytes → Option (List Arg × Bytes)
         | none => none)
      | _ => none)
 
+/-- what an instruction prints on lines of its own after its first line -/
+inductive Ext where
+  | none
+  | cases (cs : List (Ty × Const × Ident))                        -- switch: `T c, label %b` per line, then the line `<tab>]`
+  | dests (normal unwind : Ident)                                  -- invoke: `to label %n unwind label %u`
+  | clauses (cleanup : Bool) (cs : List (Bool × Ty × Operand))     -- landingpad: `cleanup`, then `catch T V` (false) / `filter T V` (true) per line
+  deriving Inhabited
+
 structure Inst where
   res : Option Ident
   row : Nat
   args : List Arg
+  /-- the continuation lines of a `switch`, `invoke` or `landingpad`; `.none` for every other instruction -/
+  ext : Ext := .none
   deriving Inhabited
 
 /-- one instruction / terminator without the leading tab -/
@@ -505,7 +532,7 @@ def readBody (res : Option Ident) (s : Bytes) : Option Inst :=
   | some (k, r, rest) =>
     if !r.hasRes && res.isSome then none          -- `%x = store ...`
     else (match readSlots r.cur0 r.slots rest with
-          | some (as, []) => some ⟨if r.hasRes && res.isNone then some .anon else res, k, as⟩      -- a value without `%x =` is nameless
+          | some (as, []) => some ⟨if r.hasRes && res.isNone then some .anon else res, k, as, .none⟩      -- a value without `%x =` is nameless
           | _ => none)
   | none => none
 
@@ -544,8 +571,35 @@ def paramsString : List (Ty × Ident) → Bytes
 def headerString (f : Func) : Bytes :=
   sDefine ++ tyString f.ret ++ [32] ++ Enc.globalName f.name ++ [40] ++ paramsString f.params ++ sOpen
 
+/-- one case of a switch on a line of its own: two tabs, `T c, label %b` (ir/terminator.go TermSwitch.LLString) -/
+def caseLine (useHex : Int → Bool) (c : Ty × Const × Ident) : Bytes :=
+  [9, 9] ++ tyString c.1 ++ [32] ++ constIdent useHex c.1 c.2.1 ++ sCommaLabel ++ identString c.2.2
+
+def sCloseCases : Bytes := [9, 93]          -- tab `]`
+
+def sToLabel : Bytes := [9, 9, 116, 111, 32, 108, 97, 98, 101, 108, 32]                                -- tab tab `to label `
+def sUnwindLabel : Bytes := [32, 117, 110, 119, 105, 110, 100, 32, 108, 97, 98, 101, 108, 32]          -- ` unwind label `
+def sCleanup : Bytes := [9, 9, 99, 108, 101, 97, 110, 117, 112]                                        -- tab tab `cleanup`
+def sCatch : Bytes := [9, 9, 99, 97, 116, 99, 104, 32]                                                 -- tab tab `catch `
+def sFilter : Bytes := [9, 9, 102, 105, 108, 116, 101, 114, 32]                                        -- tab tab `filter `
+
+def destsLine (n u : Ident) : Bytes := sToLabel ++ identString n ++ sUnwindLabel ++ identString u
+
+def clauseLine (useHex : Int → Bool) (c : Bool × Ty × Operand) : Bytes :=
+  (if c.1 then sFilter else sCatch) ++ tyString c.2.1 ++ [32] ++ operandString useHex c.2.1 c.2.2
+
+/-- the continuation lines (ir/terminator.go TermSwitch.LLString, TermInvoke.LLString; ir/inst_other.go InstLandingPad.LLString) -/
+def extLines (useHex : Int → Bool) : Ext → List Bytes
+  | .none => []
+  | .cases cs => cs.map (caseLine useHex) ++ [sCloseCases]
+  | .dests n u => [destsLine n u]
+  | .clauses cl cs => (if cl then [sCleanup] else []) ++ cs.map (clauseLine useHex)
+
+/-- the lines of an instruction or terminator: its first line and the continuation lines -/
+def instLines (useHex : Int → Bool) (i : Inst) : List Bytes := (9 :: instString useHex i) :: extLines useHex i.ext
+
 def blockLines (useHex : Int → Bool) (b : Block) : List Bytes :=
-  labelString b.label :: (b.insts.map fun i => 9 :: instString useHex i) ++ [9 :: instString useHex b.term]
+  labelString b.label :: (b.insts.flatMap (instLines useHex)) ++ instLines useHex b.term
 
 /-- blocks are separated by an empty line -/
 def blocksLines (useHex : Int → Bool) : List Block → List Bytes
@@ -607,6 +661,77 @@ def isInstLine (l : Bytes) : Bool := l.head? == some 9
 
 def isTerm (i : Inst) : Bool := match rows[i.row]? with | some r => r.term | none => false
 
+/-- `<tab><tab>T c, label %b` -/
+def readCaseLine (l : Bytes) : Option (Ty × Const × Ident) :=
+  match TyParse.stripPrefix [9, 9] l with
+  | none => none
+  | some r =>
+    match TyParse.parseTy (tyFuel r) r with
+    | some (t, 32 :: r1) =>
+      (match parseConst (r1.length + 1) t r1 with
+       | some (c, r2) =>
+         (match TyParse.stripPrefix sCommaLabel r2 with
+          | some r3 => (match readIdent r3 with | some (b, []) => some (t, c, b) | _ => none)
+          | none => none)
+       | none => none)
+    | _ => none
+
+/-- the case lines of a switch up to the line that closes the list -/
+def readCaseLines : List Bytes → Option (List (Ty × Const × Ident) × List Bytes)
+  | [] => none
+  | l :: ls =>
+    if l == sCloseCases then some ([], ls)
+    else match readCaseLine l, readCaseLines ls with
+      | some c, some (cs, rest) => some (c :: cs, rest)
+      | _, _ => none
+
+/-- `<tab><tab>to label %n unwind label %u` -/
+def readDests (l : Bytes) : Option (Ident × Ident) :=
+  match TyParse.stripPrefix sToLabel l with
+  | none => none
+  | some r =>
+    match readIdent r with
+    | some (n, r1) =>
+      (match TyParse.stripPrefix sUnwindLabel r1 with
+       | some r2 => (match readIdent r2 with | some (u, []) => some (n, u) | _ => none)
+       | none => none)
+    | none => none
+
+/-- `T V` to the end of the line -/
+def readClauseBody (filter : Bool) (r : Bytes) : Option (Bool × Ty × Operand) :=
+  match TyParse.parseTy (tyFuel r) r with
+  | some (t, 32 :: r1) => (match readOperand t r1 with | some (o, []) => some (filter, t, o) | _ => none)
+  | _ => none
+
+/-- clause lines as long as there are any: a line that starts with two tabs belongs to the instruction -/
+def readClauses : List Bytes → Option (List (Bool × Ty × Operand) × List Bytes)
+  | [] => some ([], [])
+  | l :: ls =>
+    if (TyParse.stripPrefix [9, 9] l).isSome then
+      (match (match TyParse.stripPrefix sCatch l with
+              | some r => readClauseBody false r
+              | none => (match TyParse.stripPrefix sFilter l with | some r => readClauseBody true r | none => none)),
+             readClauses ls with
+       | some c, some (cs, rest) => some (c :: cs, rest)
+       | _, _ => none)
+    else some ([], l :: ls)
+
+/-- the continuation lines of the instruction of this row -/
+def readExt (row : Nat) (ls : List Bytes) : Option (Ext × List Bytes) :=
+  if row == swRow then
+    (match readCaseLines ls with | some (cs, rest) => some (.cases cs, rest) | none => none)
+  else if invRows.contains row then
+    (match ls with
+     | l :: rest => (match readDests l with | some (n, u) => some (.dests n u, rest) | none => none)
+     | [] => none)
+  else if row == lpRow then
+    (match ls with
+     | l :: rest =>
+       if l == sCleanup then (match readClauses rest with | some (cs, rest') => some (.clauses true cs, rest') | none => none)
+       else (match readClauses ls with | some (cs, rest') => some (.clauses false cs, rest') | none => none)
+     | [] => some (.clauses false [], []))
+  else some (.none, ls)
+
 /-- the instruction lines of one block: up to and including the first terminator -/
 def readBody' : Nat → List Bytes → Option (List Inst × Inst × List Bytes)
   | 0, _ => none
@@ -615,7 +740,11 @@ def readBody' : Nat → List Bytes → Option (List Inst × Inst × List Bytes)
     if !isInstLine l then none
     else match readInst l.tail with
       | none => none
-      | some i =>
+      | some i0 =>
+        match readExt i0.row ls with
+        | none => none
+        | some (x, ls) =>
+        let i : Inst := { i0 with ext := x }
         if isTerm i then some ([], i, ls)
         else match readBody' f ls with
           | some (is, t, rest) => some (i :: is, t, rest)
@@ -692,8 +821,24 @@ def argUses : Arg → List Ident
   | .tyvals ixs => ixs.flatMap fun p => operandUses p.2
   | .flags _ => []
 
+/-- the locals (values and blocks) an instruction refers to -/
+def extLabs : Ext → List Ident
+  | .cases cs => cs.map (·.2.2)
+  | .dests n u => [n, u]
+  | _ => []
+
+def extUses : Ext → List Ident
+  | .clauses _ cs => cs.flatMap fun c => operandUses c.2.2
+  | x => extLabs x
+
+def extGlobs : Ext → List Bytes
+  | .clauses _ cs => cs.flatMap fun c => operandGlobs c.2.2
+  | _ => []
+
+def instUses (i : Inst) : List Ident := i.args.flatMap argUses ++ extUses i.ext
+
 def uses (f : Func) : List Ident :=
-  f.blocks.flatMap fun b => (instsOf b).flatMap fun i => i.args.flatMap argUses
+  f.blocks.flatMap fun b => (instsOf b).flatMap instUses
 
 def cmpTy : Ty → Ty
   | .vec s n _ => .vec s n (.int 1)
@@ -812,14 +957,21 @@ def retypeArg (ge : GEnv) (e : List (Ident × Ty)) : Arg → Arg
   | .tyvals ixs => .tyvals (ixs.map fun p => (retypeOperand ge e p.1 p.2, p.2))
   | a => a
 
-def retypeInst (ge : GEnv) (e : List (Ident × Ty)) (i : Inst) : Inst := { i with args := i.args.map (retypeArg ge e) }
+def retypeExt (ge : GEnv) (e : List (Ident × Ty)) : Ext → Ext
+  | .clauses cl cs => .clauses cl (cs.map fun c => (c.1, retypeOperand ge e c.2.1 c.2.2, c.2.2))
+  | x => x
+
+def retypeInst (ge : GEnv) (e : List (Ident × Ty)) (i : Inst) : Inst :=
+  { i with args := i.args.map (retypeArg ge e), ext := retypeExt ge e i.ext }
 
 def retypeIn (ge : GEnv) (f : Func) : Func :=
   let e := env f
   { f with blocks := f.blocks.map fun b => { b with insts := b.insts.map (retypeInst ge e), term := retypeInst ge e b.term } }
 
+def instGlobs (i : Inst) : List Bytes := i.args.flatMap argGlobs ++ extGlobs i.ext
+
 def globUses (f : Func) : List Bytes :=
-  f.blocks.flatMap fun b => (instsOf b).flatMap fun i => i.args.flatMap argGlobs
+  f.blocks.flatMap fun b => (instsOf b).flatMap instGlobs
 
 def hasDupI : List Ident → Bool
   | [] => false
@@ -870,8 +1022,10 @@ def argLabs : Arg → List Ident
   | .phis incs => incs.map (·.2)
   | _ => []
 
+def instLabs (i : Inst) : List Ident := i.args.flatMap argLabs ++ extLabs i.ext
+
 def labUses (f : Func) : List Ident :=
-  f.blocks.flatMap fun b => (instsOf b).flatMap fun i => i.args.flatMap argLabs
+  f.blocks.flatMap fun b => (instsOf b).flatMap instLabs
 
 /-- every value-yielding instruction gets a type when its scaffold is created (the vector instructions demand a vector first operand: the parser panics otherwise) -/
 def flagsOf (i : Inst) : List Nat :=
@@ -890,9 +1044,9 @@ def typed (f : Func) : Bool :=
     (!boolFlagRows.contains i.row || (flagsOf i).length ≤ 1)
 
 /-- the call rows: `call void` / `call T`, plain and with a tail-call marker -/
-def callRows : List Nat := [74, 75, 76, 77, 78, 79, 80, 81]
+def callRows : List Nat := [74, 75, 76, 77, 78, 79, 80, 81, 83, 84]
 /-- those that yield a value (their keyword is extended by `void ` in the row before) -/
-def valueCallRows : List Nat := [75, 77, 79, 81]
+def valueCallRows : List Nat := [75, 77, 79, 81, 84]
 
 def calleeOf (i : Inst) : Option Operand :=
   i.args.findSome? fun a => match a with | .val o => some o | _ => none
@@ -996,11 +1150,19 @@ def startsVoid (s : Bytes) : Bool := (TyParse.stripPrefix sVoidSp s).isSome
 def callTyOK (i : Inst) : Bool :=
   !valueCallRows.contains i.row || (match i.args with | .ty t :: _ => !startsVoid (tyString t ++ [32]) | _ => false)
 
+/-- the continuation lines are those of the row, with well-formed identifiers and constants -/
+def extOKB (row : Nat) : Ext → Bool
+  | .none => !(row == swRow) && !invRows.contains row && !(row == lpRow)
+  | .cases cs => row == swRow && cs.all (fun c => cwf c.2.1 && identOKB c.2.2)
+  | .dests n u => invRows.contains row && identOKB n && identOKB u
+  | .clauses _ cs => row == lpRow && cs.all (fun c => operandOKB c.2.2)
+
 def instOKB (i : Inst) : Bool :=
   match rows[i.row]? with
   | none => false
   | some r => matchesB r.slots i.args && i.args.all argOKB && (r.hasRes == i.res.isSome) &&
-      (match i.res with | some id => identOKB id | none => true) && callTyOK i
+      (match i.res with | some id => identOKB id | none => true) && callTyOK i &&
+      extOKB i.row i.ext
 
 def blockOKB (b : Block) : Bool :=
   identOKB b.label && b.insts.all (fun i => instOKB i && !isTerm i) && instOKB b.term && isTerm b.term
@@ -1021,8 +1183,12 @@ def consistentArg (ge : GEnv) (e : List (Ident × Ty)) : Arg → Bool
   | .tyvals ixs => ixs.all fun p => consistentOp ge e p.1 p.2
   | _ => true
 
+def consistentExt (ge : GEnv) (e : List (Ident × Ty)) : Ext → Bool
+  | .clauses _ cs => cs.all fun c => consistentOp ge e c.2.1 c.2.2
+  | _ => true
+
 def consistent (ge : GEnv) (f : Func) : Bool :=
-  f.blocks.all fun b => (instsOf b).all fun i => i.args.all (consistentArg ge (env f))
+  f.blocks.all fun b => (instsOf b).all fun i => i.args.all (consistentArg ge (env f)) && consistentExt ge (env f) i.ext
 
 /-- semantic well-formedness: every identifier defined once, every use defined, unnamed values numbered as LLVM numbers them, operand types
     consistent with the definitions -/
